@@ -14,8 +14,8 @@ Proof. intros. rewrite !cq_refines by assumption. reflexivity. Qed.
 Print Assumptions C03_order_independent_of_parameters.
 
 (* Every reachable specification state satisfies the ordering invariant. *)
-Theorem C03_invariant_reachable : forall ops, SI2 (ss (fst (sp_run_from sp_init ops))).
-Proof. intros ops. apply SI2_reachable. exact SI2_new. Qed.
+Theorem C03_invariant_reachable : forall ts ops, SI2 (ss (fst (sp_run_from (sp_init_at ts) ops))).
+Proof. intros ts ops. apply SI2_reachable. exact (SI2_new_at ts). Qed.
 Print Assumptions C03_invariant_reachable.
 
 (* Fetch returns the pending event with the least dispatch key
